@@ -133,7 +133,47 @@ def rule_latch(fx, rep):
                 ok = False
                 rep.violation("C05-LATCH", f"C05-LATCH/{norm(b.name).split('::')[-1]}", f"`{b.name}` notifies `{cv}` without having locked `{mx}`, the mutex `wait()` sleeps with: a change made between the waiter's test and its enqueue is not seen and its notification is lost, so the waiter (the `stop` handler) sleeps forever",
                               {"fn": b.name, "file": b.file, "line": t.get("line")})
-    rep.rule("C05-LATCH", n, 1, ok, "latch methods notify only while holding the waiter's mutex")
+    # polarity: `wait()` returns when the flag has the value `set()` stores, and only then. Loop form: the return is reached on the
+    # flag-is-set edge of the test on the guarded flag; `wait_while` form: the predicate (sleep while ..) is the negated flag.
+    setter = [b for b in bodies if norm(b.name).endswith("LockLatch::set")]
+    vset = None
+    if len(setter) == 1:
+        for bb, j, st in setter[0].stmts():
+            if st["k"] == "assign" and st["lhs"].get("p") == ["*"] and st["rv"]["k"] == "use" and st["rv"]["op"].get("k") == "const" and st["rv"]["op"].get("ty") == "bool":
+                vset = bool(st["rv"]["op"].get("int"))
+    if vset is None or not norm(wb.name).endswith("LockLatch::wait"):
+        rep.notes.append("C05-LATCH: the value `set()` stores / the waiting method was not identified; polarity clause not decided")
+    else:
+        verdict = None
+        if norm(callee_name(wt) or "").endswith("Condvar::wait_while") and len(wt["args"]) == 3:
+            ce = deep_strip(wb.expr(wt["args"][2], expand_named=True, at=wbb))
+            cb = fx.body(str(ce[1])[len("closure:"):]) if isinstance(ce, tuple) and ce and ce[0] == "agg" and str(ce[1]).startswith("closure:") else None
+            if cb is not None:
+                rets = [deep_strip(r) for (_c, r, _l) in decision_paths(cb, 8) if r is not None]
+                if len(rets) == 1:
+                    r = rets[0]
+                    neg = isinstance(r, tuple) and r and r[0] == "unop" and r[1] == "Not"
+                    inner = deep_strip(r[2]) if neg else r
+                    if isinstance(inner, tuple) and inner and inner[0] == "arg" and inner[1] == 2:
+                        # sleeps while the predicate is true: must be true exactly while the flag is NOT the set value
+                        sleeps_while_flag = not neg
+                        verdict = (sleeps_while_flag != vset, f"`wait_while` sleeps while the flag is {'set' if sleeps_while_flag == vset else 'clear'}")
+        else:
+            for rb in wb.return_blocks():
+                for (e, pol, w) in guard_conditions(wb, rb, expand_named=True):
+                    if "Deref>::deref" in show(e) and pol is not None and "MutexGuard" in "".join(wb.local_ty(l) for l in range(len(wb.locals)) if (wb.local_name(l) or "") and (wb.local_name(l) or "") in show(e)):
+                        verdict = (bool(pol) == vset, f"`wait()` returns on the flag-{'true' if pol else 'false'} edge of its test")
+        if verdict is None:
+            rep.notes.append("C05-LATCH: the waiter's test on the flag is not in a recognised form; polarity clause not decided")
+        else:
+            n += 1
+            rep.obligation(verdict[0])
+            rep.sample({"rule": "C05-LATCH", "set_stores": vset, "waiter": verdict[1]})
+            if not verdict[0]:
+                ok = False
+                rep.violation("C05-LATCH", "C05-LATCH/polarity", f"`set()` stores {str(vset).lower()} but {verdict[1]}: a stop issued after a search has completed (latch set) sleeps forever, and one issued while it is "
+                              "unset returns at once without waiting for the search", {"fn": wb.name, "file": wb.file, "line": wt.get("line")})
+    rep.rule("C05-LATCH", n, 1, ok, "latch methods notify only while holding the waiter's mutex; the waiter returns exactly when the flag is set")
 
 
 # ---- C05-PANIC -----------------------------------------------------------------------------
@@ -982,6 +1022,10 @@ def rule_noblock(fx, rep, ex, arms, names=("IsReady", "Quit", "Position", "Debug
 
 U = "src/engine/uci/mod.rs"
 MUTANTS = [
+    {"name": "LockLatch::wait by wait_while with the predicate inverted (seed C05-8a)", "expect": "C05-LATCH/polarity",
+     "edits": [("src/engine/util/sync.rs", "        let mut guard = self.m.lock().unwrap();\n        while !*guard {\n            guard = self.v.wait(guard).unwrap();\n        }", "        let guard = self.m.lock().unwrap();\n        let _guard = self.v.wait_while(guard, |set| *set).unwrap();")]},
+    {"name": "LockLatch::wait by wait_while", "benign": True,
+     "edits": [("src/engine/util/sync.rs", "        let mut guard = self.m.lock().unwrap();\n        while !*guard {\n            guard = self.v.wait(guard).unwrap();\n        }", "        let guard = self.m.lock().unwrap();\n        let _guard = self.v.wait_while(guard, |set| !*set).unwrap();")]},
     {"name": "stop flag consulted only for searches without a time limit (seed C09-7a)", "expect": "C05-STOPFLAG/poll",
      "edits": [("src/engine/search/time_control.rs", "        if self.is_force_stopped() {\n            return true;\n        }\n\n        self.next_check_at = nodes_visited + params::CHECK_TERMINATION_NODE_FREQUENCY;\n\n        match self.time_control {\n            TimeControl::Clocks(_) => self.elapsed() > self.hard_stop,\n            TimeControl::ExactTime(time) => self.elapsed() > time,\n            TimeControl::Infinite => false,\n        }",
                 "        self.next_check_at = nodes_visited + params::CHECK_TERMINATION_NODE_FREQUENCY;\n\n        match self.time_control {\n            TimeControl::Clocks(_) => self.elapsed() > self.hard_stop,\n            TimeControl::ExactTime(time) => self.elapsed() > time,\n            TimeControl::Infinite => self.is_force_stopped(),\n        }")]},
